@@ -128,7 +128,7 @@ pub fn probe_source(tys: &[Ty]) -> String {
 pub fn build_probes(tys: &[Ty]) -> Result<Vec<Probe>, String> {
     let sc = Scratch::new("c12", &[("lib/probe.ak".to_string(), probe_source(tys))]);
     let (mut p, _) = sc.project()?;
-    p.check(true, None, false, false, 0, 1, Default::default(), silent(), false, None).map_err(|es| format!("probe project does not compile: {}", es.iter().map(|e| format!("{e:?}")).collect::<Vec<_>>().join("; ").chars().take(1200).collect::<String>()))?;
+    p.check(true, None, false, false, 0, 1, Default::default(), silent(), false, None).map_err(|es| format!("probe project does not compile: {}", crate::pj::show_errors(&es)))?;
     let mut out = vec![];
     for (k, t) in tys.iter().enumerate() {
         let enc = p.export("probe", &format!("enc_{k}"), silent()).map_err(|e| format!("export enc_{k}: {e:?}"))?;
